@@ -53,6 +53,26 @@ def gen(rng, index, tier):
             plan["script"] = script
             plan["filter"] = "fixture"
             return plan
+    if index % 400 == 207:
+        # rate over MANY SHORT sessions (one per request / per test): each session gets a new tracer and sees only a few calls
+        plain = [f for f in plan["prog"]["funcs"] if f["body"] == "plain" and f["kind"] in ("func", "wrapped") and not f.get("inner")]
+        if plain:
+            plan["mode"] = "RS"
+            plan["rate"] = rng.choice([2, 3, 4, 10])
+            plan["rng_seed"] = rng.getrandbits(32)
+            plan["filter"] = "fixture"
+            plan["script"] = []
+            ctx = D.Ctx(rng, plan["prog"], {"depth": 0, "atom_p": 1.0})
+            sessions = []
+            for _ in range(rng.choice([600, 900, 1200])):
+                calls = []
+                for _ in range(rng.choice([1, 1, 2, 3])):
+                    f = rng.choice(plain)
+                    args, kwargs = D.gen_args_all_positional(ctx, f, False)
+                    calls.append({"a": "call", "fid": f["fid"], "recv": None, "args": args, "kwargs": kwargs, "script": [], "catch": True})
+                sessions.append(calls)
+            plan["short_sessions"] = sessions
+            return plan
     if r < 0.6:
         plan["mode"] = "A"
         kind = rng.choice(["zero", "nonzero", "skipfirst", "skipfirst", "iid", "iid"])
@@ -137,6 +157,42 @@ def config_session(earlier_rate):
     return session
 
 
+def execute_short_sessions(plan, lp):
+    """Mode RS: the traced fraction over many short sessions, each with its own tracer (trace_calls builds one per block)."""
+    from monkeytype.tracing import trace_calls
+    from dst.world import rt
+    import gc
+
+    rate = plan["rate"]
+    _random.seed(plan["rng_seed"])
+    rt.reset()
+    gc.collect()
+    D.get_driver()
+    mat = D.Mat(lp)
+    flt, admitted = c02.make_filter(plan, lp)
+    logger = c02.TeeLogger()
+    tops = [mat.script(calls) for calls in plan["short_sessions"]]
+    n_calls = 0
+    for top, calls in zip(tops, plan["short_sessions"]):
+        with trace_calls(logger, plan["k"], flt, rate):
+            D.run_top(top)
+        n_calls += len(calls)
+    J = list(rt.J)
+    D.finish_handles()
+    got = sum(1 for tr, pos in logger.logs if lp.code.get(id(getattr(getattr(tr, "func", None), "__code__", None))) is not None)
+    p = 1.0 / rate
+    sd = math.sqrt(n_calls * p * (1 - p))
+    lo, hi = n_calls * p - 6 * sd - 1, n_calls * p + 6 * sd + 1
+    V = []
+    if not (lo <= got <= hi):
+        V.append({"clause": "C18.rate", "cause": None, "site": {"rate": rate, "calls": n_calls, "traced": got, "sessions": len(tops)},
+                  "msg": "rate %d over %d short sessions: %d of %d calls traced, outside the 6-sigma band [%.1f, %.1f]" % (rate, len(tops), got, n_calls, lo, hi)})
+    if logger.flushes != len(tops):
+        V.append({"clause": "C18.rate", "cause": None, "site": {"flushes": logger.flushes, "sessions": len(tops)}, "msg": "harness: flush count differs from session count"})
+    return {"violations": V, "digest": R.digest([len(J), got, n_calls]), "sig": None, "nontrivial": n_calls > 0, "evaluated": 1,
+            "probes": {"rate band over many short sessions evaluated": 1}, "faults": {"rng_seeded": 1}, "stats": {"completed_calls": n_calls, "logged_traces": got}}
+
+
 RENAME = {"C18.once": "C18.all-when-off", "C18.order": "C18.all-when-off"}
 
 
@@ -147,6 +203,8 @@ def execute(plan):
     lp = c02.get_program(plan["prog"])
     rate = plan["rate"]
     mode = plan["mode"]
+    if mode == "RS":
+        return execute_short_sessions(plan, lp)
     stand_in = None
     real_random = MT.random
     if mode == "A":
